@@ -372,7 +372,9 @@ CHECKS.update({
              "via an independent determinant algebra), by text after "
              "substitute_contracted(), and by monitors that psi / "
              "norm_factor / get_generic_indices never reuse contracted or "
-             "handed-out indices.",
+             "handed-out indices; norm_factor(n) is additionally compared "
+             "with the series 1/(1+sum S_k) built from separately requested "
+             "overlaps (factors of ONE result must not share indices).",
         design="4 C19, 8.2",
         note="Trusted: evalexpr/ring/model, os.fork semantics. The oracle is "
              "relative (same request in a pristine default process): "
